@@ -347,7 +347,12 @@ type c16Thread struct {
 }
 
 func c16Scenario(name string, o c16Opts, kinds []string, bound int) schedx.Scenario {
-	return schedx.Scenario{Name: name, Bound: bound, SyncPoints: true, DeadlockIsViolation: true, PanicIsViolation: true, OnceOnly: true,
+	fp := bound >= 0
+	if bound < 0 { // negative bound b means: pre-emption bound -b at lock operations only (no function-entry points)
+		bound = -bound
+		name += fmt.Sprintf(" [locks only, bound %d]", bound)
+	}
+	return schedx.Scenario{Name: name, Bound: bound, FuncPoints: fp, SyncPoints: true, DeadlockIsViolation: true, PanicIsViolation: true, OnceOnly: true,
 		Setup: func() *schedx.Instance {
 			vtime.SetVirtual(true)
 			w := newC16World(o)
@@ -415,39 +420,45 @@ func c16Scenario(name string, o c16Opts, kinds []string, bound int) schedx.Scena
 }
 
 func c16Scenarios(tier string) []schedx.Scenario {
-	b := 1
-	if tier == "thorough" {
-		b = 2
-	}
 	static := c16Opts{Logout: true}
 	disc := c16Opts{Discovery: true, Logout: true}
-	scs := []schedx.Scenario{
-		c16Scenario("S1 static: nocookie||fresh", static, []string{"nocookie", "fresh"}, b),
-		c16Scenario("S1 static: callback||refresh", static, []string{"callback", "refresh"}, b),
-		c16Scenario("S1 static: fresh||fresh same session", static, []string{"fresh", "fresh:same"}, b),
-		c16Scenario("S1 static: refresh||logout", static, []string{"refresh", "logout"}, b),
-		c16Scenario("S2 discovery first use: nocookie||nocookie", disc, []string{"nocookie", "nocookie"}, b),
-		c16Scenario("S2 discovery: callback||fresh", disc, []string{"callback", "fresh"}, b),
-		c16Scenario("S3 secret rotation: callback||reconcile", c16Opts{SecretRef: true}, []string{"callback", "reconcile"}, b),
-		c16Scenario("S3 secret rotation: refresh||reconcile", c16Opts{SecretRef: true}, []string{"refresh", "reconcile"}, b),
-		c16Scenario("S4 CA file: callback||rotate", c16Opts{CAFile: true}, []string{"callback", "rotate"}, b),
-		c16Scenario("S4 CA file: callback||nocookie", c16Opts{CAFile: true}, []string{"callback", "nocookie"}, b),
-		c16Scenario("S5 jwks fetcher first use: callback||callback", c16Opts{JWKSFetch: true}, []string{"callback", "callback"}, b),
+	mk := func(b int) []schedx.Scenario {
+		return []schedx.Scenario{
+			c16Scenario("S1 static: nocookie||fresh", static, []string{"nocookie", "fresh"}, b),
+			c16Scenario("S1 static: callback||refresh", static, []string{"callback", "refresh"}, b),
+			c16Scenario("S1 static: fresh||fresh same session", static, []string{"fresh", "fresh:same"}, b),
+			c16Scenario("S1 static: refresh||refresh same session", static, []string{"refresh", "refresh:same"}, b),
+			c16Scenario("S1 static: callback||callback same session", static, []string{"callback", "callback:same"}, b),
+			c16Scenario("S1 static: refresh||logout", static, []string{"refresh", "logout"}, b),
+			c16Scenario("S2 discovery first use: nocookie||nocookie", disc, []string{"nocookie", "nocookie"}, b),
+			c16Scenario("S2 discovery: callback||fresh", disc, []string{"callback", "fresh"}, b),
+			c16Scenario("S3 secret rotation: callback||reconcile", c16Opts{SecretRef: true}, []string{"callback", "reconcile"}, b),
+			c16Scenario("S3 secret rotation: refresh||reconcile", c16Opts{SecretRef: true}, []string{"refresh", "reconcile"}, b),
+			c16Scenario("S4 CA file: callback||rotate", c16Opts{CAFile: true}, []string{"callback", "rotate"}, b),
+			c16Scenario("S4 CA file: callback||nocookie", c16Opts{CAFile: true}, []string{"callback", "nocookie"}, b),
+			c16Scenario("S5 jwks fetcher first use: callback||callback", c16Opts{JWKSFetch: true}, []string{"callback", "callback"}, b),
+		}
 	}
+	scs := mk(1) // function-entry + lock points, one pre-emption
 	if tier == "thorough" {
+		scs = append(scs, mk(-3)...) // lock points only, three pre-emptions
+		for _, b := range []int{1, -2} {
+			scs = append(scs,
+				c16Scenario("S1 static: 3 threads", static, []string{"nocookie", "callback", "refresh"}, b),
+				c16Scenario("S2 discovery: 3 threads", disc, []string{"nocookie", "callback", "refresh"}, b),
+				c16Scenario("S4 CA file: callback||rotate||nocookie", c16Opts{CAFile: true}, []string{"callback", "rotate", "nocookie"}, b),
+			)
+		}
 		scs = append(scs,
-			c16Scenario("S1 static: 3 threads", static, []string{"nocookie", "callback", "refresh"}, 2),
-			c16Scenario("S2 discovery: 3 threads", disc, []string{"nocookie", "callback", "refresh"}, 2),
-			c16Scenario("S4 CA file: callback||rotate||nocookie", c16Opts{CAFile: true}, []string{"callback", "rotate", "nocookie"}, 2),
-			c16Scenario("S6 redis: fresh||refresh", c16Opts{Redis: true}, []string{"fresh", "refresh"}, 1),
-			c16Scenario("S6 redis: callback||logout", c16Opts{Redis: true, Logout: true}, []string{"callback", "logout"}, 1),
+			c16Scenario("S6 redis: fresh||refresh", c16Opts{Redis: true}, []string{"fresh", "refresh"}, -2),
+			c16Scenario("S6 redis: callback||logout", c16Opts{Redis: true, Logout: true}, []string{"callback", "logout"}, -2),
 		)
 	}
 	return scs
 }
 
 func c16Run(run *ev.Run) {
-	run.Rule = "race-oracle schedule exploration: 2-3 harness threads (checks of different kinds through ExtAuthZFilter.Check on ONE shared Config / TLS pool / JWKS provider / store factory; secret-controller Reconcile; CA rotation) run under the cooperative scheduler built with -race; hand-offs are raw pipe syscalls from //go:norace code, invisible to the race runtime, so its vector clocks contain only the program's own happens-before edges and every schedule (pre-emption bound 1 quick / 2 thorough, scheduling points at every lock operation of the rewritten sync package) is judged by the happens-before race detector, the scheduler's deadlock detection and recover(); provider answers come from a per-connection pure responder (no cross-thread edges); class = distinct observation logs per scenario"
+	run.Rule = "race-oracle schedule exploration: 2-3 harness threads (checks of different kinds through ExtAuthZFilter.Check on ONE shared Config / TLS pool / JWKS provider / store factory; secret-controller Reconcile; CA rotation) run under the cooperative scheduler built with -race; hand-offs are raw pipe syscalls from //go:norace code, invisible to the race runtime, so its vector clocks contain only the program's own happens-before edges and every schedule (quick: one pre-emption over scheduling points at every lock operation of the rewritten sync package AND every function entry of the repository's packages; thorough adds three pre-emptions over lock operations only and three-thread scenarios) is judged by the happens-before race detector, the scheduler's deadlock detection and recover(); provider answers come from a per-connection pure responder (no cross-thread edges); class = distinct observation logs per scenario"
 	run.Assumptions = []string{
 		"'many goroutines on 16 cores' is replaced by all schedules of 2-3 threads within the pre-emption bound; accesses no scenario executes are not seen",
 		"Redis scenarios: every Redis round trip passes through syscall.Read/Write whose global ioSync edge hides most races from any use of Go's race detector; they are run for deadlock/panic only",
@@ -479,7 +490,7 @@ func c16Run(run *ev.Run) {
 		cmd := exec.Command(exe, "C16", "--tier", run.Tier, "--verif", filepath.Join(scratch, fmt.Sprintf("c16-child-%d", i)))
 		cmd.Env = append(os.Environ(), "VERIF_C16_CHILD="+scs[i].Name, "VERIF_C16_OUT="+out,
 			fmt.Sprintf("GORACE=halt_on_error=0 history_size=5 log_path=%s/race-child-%d", scratch, i),
-			fmt.Sprintf("VERIF_BUDGET_S=%d", int(time.Until(run.Deadline).Seconds())))
+			fmt.Sprintf("VERIF_BUDGET_S=%d", min(int(time.Until(run.Deadline).Seconds())-20, 420)))
 		b, err := cmd.CombinedOutput()
 		res := &c16ChildResult{Scenario: scs[i].Name}
 		if data, rerr := os.ReadFile(out); rerr == nil {
@@ -544,7 +555,6 @@ func c16Child(run *ev.Run, name string) {
 	run.Collector = func(sig, msg string, replay any) {
 		res.Violations = append(res.Violations, c16ChildViolation{sig, msg, replay})
 	}
-	vsched.DefaultFuncPoints = true
 	found := false
 	for _, sc := range c16Scenarios(run.Tier) {
 		if sc.Name != name {
